@@ -58,6 +58,7 @@ type Profile struct {
 	PMidInvoke   float64
 	PReenter     float64
 	PDigErr      float64 // share of error faults whose error wraps a foreign dig error
+	PCbPanic     float64 // share of callbacks that panic the first time they fire
 	Invokes      [2]int
 	InvokeFaults bool
 }
@@ -412,6 +413,7 @@ func genHistory(r *rand.Rand, p Profile) *History {
 			}
 		}
 		op.Callback = g.coin(p.PCallback)
+		op.CbPanic = op.Callback && g.coin(p.PCbPanic)
 		op.Info = g.coin(p.PInfo)
 		ctors = append(ctors, ctor{f: f, op: op})
 	}
@@ -483,6 +485,7 @@ func genHistory(r *rand.Rand, p Profile) *History {
 		g.addFaults(f)
 		g.encode(f, false)
 		op.Callback = g.coin(p.PCallback)
+		op.CbPanic = op.Callback && g.coin(p.PCbPanic)
 		op.Info = g.coin(p.PInfo)
 		regOps = append(regOps, op)
 	}
